@@ -1,5 +1,327 @@
-From Asynkit Require Import Base.Prelude Queue.PQ.
-(* placeholder until PQProofs lands *)
-Theorem C17_placeholder : forall P (q : pq P), pq_clear q = pq_empty.
-Proof. reflexivity. Qed.
-Print Assumptions C17_placeholder.
+(* C17 - Priority containers are faithful to their reference models.
+   Final statements; the proofs are in Queue/{Order,Heap,PQProofs,...}.v.
+   Conventions: [H : heapimpl P] bundles the priority order [plt H] (Python's
+   bare `<` on priorities) and the three heapq primitives; [StrictWeak (plt H)]
+   says `<` is a strict weak order; [HeapSpec H] is heapq's documented contract
+   (Queue/Heap.v).  [pq_sort H q] (list.sort() of the array) is the abstraction:
+   the unique sorted permutation of the heap array. *)
+From Coq Require Import Sorting.Sorted Sorting.Permutation.
+From Coq Require Import QArith.
+From Asynkit Require Import Base.Prelude Queue.PQ Queue.Order Queue.Heap Queue.ListFacts
+  Queue.PQProofs Queue.SortImpl Queue.HeapqModel Queue.Exec Queue.HeapqProofs
+  Queue.PosPQ Queue.PosProofs Queue.PosInsert.
+Local Close Scope Q_scope.
+
+(* PriEntry.__lt__, built from a bare `<`, is a strict total order on entries
+   with pairwise distinct sequence numbers (and a strict weak order on all
+   entries: its complement is transitive). *)
+Theorem C17_entry_order :
+  forall (P : Type) (lt : P -> P -> bool), StrictWeak lt ->
+    (forall a, entry_lt lt a a = false) /\
+    (forall a b c, entry_lt lt a b = true -> entry_lt lt b c = true -> entry_lt lt a c = true) /\
+    (forall a b c, entry_lt lt b a = false -> entry_lt lt c b = false -> entry_lt lt c a = false) /\
+    (forall a b, eseq a <> eseq b -> entry_lt lt a b = true \/ entry_lt lt b a = true).
+Proof.
+  intros P lt SW.
+  exact (conj (elt_irrefl SW) (conj (elt_trans SW) (conj (ele_trans SW) (elt_total SW)))).
+Qed.
+Print Assumptions C17_entry_order.
+
+(* what the invariant says *)
+Theorem C17_pq_inv_meaning :
+  forall (P : Type) (H : heapimpl P) (q : pq P),
+    Inv H q <->
+    is_heap (entry_lt (plt H)) (arr q) /\          (* forall i>0: not (a[i] < a[(i-1)/2]) *)
+    NoDup (map eseq (arr q)) /\                     (* sequence numbers unique *)
+    Forall (fun e => (eseq e < seqn q)%Z) (arr q) /\ (* and below _sequence *)
+    (0 <= seqn q)%Z.
+Proof. exact (@Inv_unfold). Qed.
+Print Assumptions C17_pq_inv_meaning.
+
+Theorem C17_heap_facts :
+  forall (P : Type) (lt : P -> P -> bool), StrictWeak lt ->
+    (* element 0 of a heap is minimal *)
+    (forall a l, is_heap (entry_lt lt) (a :: l) -> Forall (fun x => entry_lt lt x a = false) l) /\
+    (* a sorted list is a heap *)
+    (forall l, StronglySorted (fun a b => entry_lt lt b a = false) l -> is_heap (entry_lt lt) l) /\
+    (* the `lp >= lq` restore of ordereditems *)
+    (forall p a, StronglySorted (fun x y => entry_lt lt y x = false) p ->
+                 (forall x y, In x p -> In y a -> entry_lt lt y x = false) ->
+                 length a <= length p + 1 -> is_heap (entry_lt lt) (p ++ a)).
+Proof.
+  intros P lt SW.
+  exact (conj (eheap_min_cons SW) (conj (esorted_is_heap SW) (emerge_restore_heap SW))).
+Qed.
+Print Assumptions C17_heap_facts.
+
+(* the invariant holds initially and is preserved by every operation,
+   including an ordered iteration closed after any number of items *)
+Theorem C17_pq_inv :
+  forall (P : Type) (H : heapimpl P), StrictWeak (plt H) -> HeapSpec H ->
+    Inv H pq_empty /\
+    forall q, Inv H q ->
+      (forall p o, Inv H (pq_add H q p o)) /\
+      (forall l, Inv H (pq_extend H q l)) /\
+      (forall e q', pq_popentry H q = Some (e, q') -> Inv H q') /\
+      (forall o p q', pq_remove H q o = Some (p, q') -> Inv H q') /\
+      (forall key rm e q', pq_find H q key rm = Some (e, q') -> Inv H q') /\
+      (forall key np o q', pq_reschedule H q key np = Some (o, q') -> Inv H q') /\
+      Inv H (pq_refresh H q) /\ Inv H (pq_sort H q) /\ Inv H (pq_clear q) /\
+      (forall n ys q', pq_ordered_take H q n = (ys, q') -> Inv H q') /\
+      (forall ys q', pq_ordered_all H q = (ys, q') -> Inv H q').
+Proof.
+  intros P H SW HS. exact (conj (Inv_empty H) (all_ops_inv H SW HS)).
+Qed.
+Print Assumptions C17_pq_inv.
+
+(* every operation agrees with the sorted-list reference model (Queue/PQProofs.v,
+   ref_*: add = stable insert with the next sequence number, pop/peek = head,
+   remove/find = delete the entry of that object, reschedule = delete and
+   re-insert with the old sequence number, ordered iteration = prefix of the
+   list, list unchanged), provided objects are pairwise distinct and a search
+   key selects at most one entry *)
+Theorem C17_pq_refines_ops :
+  forall (P : Type) (H : heapimpl P), StrictWeak (plt H) -> HeapSpec H ->
+    forall q, Inv H q -> NoDup (map eobj (arr q)) ->
+      (forall p o, pq_sort H (pq_add H q p o) = ref_add H (pq_sort H q) p o) /\
+      (forall l, pq_sort H (pq_extend H q l) = ref_extend H (pq_sort H q) l) /\
+      lift_abs H (pq_popentry H q) = ref_popentry (pq_sort H q) /\
+      pq_peek q = pq_peek (pq_sort H q) /\
+      (forall o, lift_abs H (pq_remove H q o) = ref_remove (pq_sort H q) o) /\
+      (forall key rm, KeyUniq key (arr q) ->
+         lift_abs H (pq_find H q key rm) = ref_find (pq_sort H q) key rm) /\
+      (forall key np, KeyUniq key (arr q) ->
+         lift_abs H (pq_reschedule H q key np) = ref_reschedule H (pq_sort H q) key np) /\
+      (forall n, fst (pq_ordered_take H q n) = firstn n (arr (pq_sort H q)) /\
+                 pq_sort H (snd (pq_ordered_take H q n)) = pq_sort H q) /\
+      length (arr q) = length (arr (pq_sort H q)) /\
+      (forall o, mem_obj o (arr q) = mem_obj o (arr (pq_sort H q))).
+Proof. exact (@all_ops_refine). Qed.
+Print Assumptions C17_pq_refines_ops.
+
+(* whole histories: from any state satisfying the invariant (in particular the
+   empty queue), for every operation list whose adds use fresh objects and whose
+   keys are unambiguous (stated on the reference model only), the implementation
+   model returns exactly the reference model's results, ends in a state whose
+   abstraction is the reference model's state, and the invariant still holds *)
+Theorem C17_pq_refines :
+  forall (P : Type) (H : heapimpl P), StrictWeak (plt H) -> HeapSpec H ->
+    forall (ops : list (op P)) (q : pq P),
+      Inv H q -> NoDup (map eobj (arr q)) -> ok_run H (pq_sort H q) ops ->
+      ref_run H (pq_sort H q) ops
+        = (fst (run H q ops), pq_sort H (snd (run H q ops))) /\
+      Inv H (snd (run H q ops)) /\ NoDup (map eobj (arr (snd (run H q ops)))).
+Proof. intros P H SW HS ops. exact (run_refines H SW HS ops). Qed.
+Print Assumptions C17_pq_refines.
+
+Theorem C17_pq_refines_from_empty :
+  forall (P : Type) (H : heapimpl P), StrictWeak (plt H) -> HeapSpec H ->
+    forall ops : list (op P), ok_run H pq_empty ops ->
+      ref_run H pq_empty ops
+        = (fst (run H pq_empty ops), pq_sort H (snd (run H pq_empty ops))) /\
+      Inv H (snd (run H pq_empty ops)).
+Proof. intros P H SW HS ops. exact (run_refines_empty H SW HS ops). Qed.
+Print Assumptions C17_pq_refines_from_empty.
+
+(* pop order: popping everything returns a permutation of the content which is
+   strictly ascending for PriEntry.__lt__, i.e. by priority, then by sequence
+   number (= arrival, see C17_add_position) *)
+Theorem C17_pop_order :
+  forall (P : Type) (H : heapimpl P), StrictWeak (plt H) -> HeapSpec H ->
+    forall q, Inv H q ->
+      let out := drain H (length (arr q)) q in
+      Permutation out (arr q) /\
+      StronglySorted (fun a b => entry_lt (plt H) a b = true) out.
+Proof. exact (@drain_order). Qed.
+Print Assumptions C17_pop_order.
+
+(* add places the new item, in pop order, after every item whose priority is
+   not above its own (FIFO among equals) and before every item of strictly
+   greater priority; all other items keep their relative order *)
+Theorem C17_add_position :
+  forall (P : Type) (H : heapimpl P), StrictWeak (plt H) -> HeapSpec H ->
+    forall q p o, Inv H q ->
+      exists l1 l2,
+        arr (pq_sort H q) = l1 ++ l2 /\
+        arr (pq_sort H (pq_add H q p o)) = l1 ++ mkE p (seqn q) o :: l2 /\
+        Forall (fun x => plt H p (epri x) = false) l1 /\
+        Forall (fun x => plt H p (epri x) = true) l2.
+Proof. exact (@add_position). Qed.
+Print Assumptions C17_add_position.
+
+(* nothing is lost or duplicated *)
+Theorem C17_nothing_lost :
+  forall (P : Type) (H : heapimpl P), StrictWeak (plt H) -> HeapSpec H ->
+    forall q, Inv H q ->
+      (forall p o, Permutation (arr (pq_add H q p o)) (mkE p (seqn q) o :: arr q)) /\
+      (forall l, Permutation (arr (pq_extend H q l))
+                             (arr q ++ snd (extend_entries (seqn q) l))) /\
+      (forall e q', pq_popentry H q = Some (e, q') -> Permutation (arr q) (e :: arr q')) /\
+      (forall o p q', pq_remove H q o = Some (p, q') ->
+         exists e, eobj e = o /\ epri e = p /\ Permutation (arr q) (e :: arr q')) /\
+      (forall key e q', pq_find H q key true = Some (e, q') ->
+         key (eobj e) = true /\ Permutation (arr q) (e :: arr q')) /\
+      (forall key np o q', pq_reschedule H q key np = Some (o, q') ->
+         key o = true /\ exists e r, eobj e = o /\ Permutation (arr q) (e :: r) /\
+           (q' = q \/ Permutation (arr q') (mkE np (eseq e) o :: r))) /\
+      Permutation (arr (pq_refresh H q)) (arr q) /\
+      Permutation (arr (pq_sort H q)) (arr q) /\
+      (forall n, Permutation (arr (snd (pq_ordered_take H q n))) (arr q)).
+Proof. exact (@all_ops_perm). Qed.
+Print Assumptions C17_nothing_lost.
+
+(* observation (refresh, sort, full / partial / abandoned ordered iteration,
+   find without removal) does not change the abstract state; by C17_pq_refines
+   the results of all later operations are functions of that state only *)
+Theorem C17_observation :
+  forall (P : Type) (H : heapimpl P), StrictWeak (plt H) -> HeapSpec H ->
+    forall q, Inv H q ->
+      pq_sort H (pq_refresh H q) = pq_sort H q /\
+      pq_sort H (pq_sort H q) = pq_sort H q /\
+      (forall n, pq_sort H (snd (pq_ordered_take H q n)) = pq_sort H q) /\
+      pq_sort H (snd (pq_ordered_all H q)) = pq_sort H q /\
+      (forall key, match pq_find H q key false with
+                   | Some (_, q') => q' = q | None => True end).
+Proof. exact (@observation_abs). Qed.
+Print Assumptions C17_observation.
+
+(* ---- heapq itself: the transcription of CPython's heapq used for execution
+   (and compared with the real heapq on every check run) meets HeapSpec, so for
+   the executable instances no hypothesis about heapq remains ---- *)
+Theorem C17_heapq_model_meets_spec :
+  forall (P : Type) (lt : P -> P -> bool) (d : P),
+    StrictWeak lt -> HeapSpec (mk_heapimpl lt d).
+Proof. exact (@heapq_model_spec). Qed.
+Print Assumptions C17_heapq_model_meets_spec.
+
+(* closed instance: integer priorities, CPython's heapq algorithm *)
+Theorem C17_pq_refines_HZ :
+  forall ops : list (op Z), ok_run HZ pq_empty ops ->
+    ref_run HZ pq_empty ops
+      = (fst (run HZ pq_empty ops), pq_sort HZ (snd (run HZ pq_empty ops))) /\
+    Inv HZ (snd (run HZ pq_empty ops)).
+Proof. exact (run_refines_empty HZ Zltb_strict_weak HZ_spec). Qed.
+Print Assumptions C17_pq_refines_HZ.
+
+(* ---- PosPriorityQueue, boosting disabled (priority_boost_factor = 0) ---- *)
+
+(* PriorityValue.__lt__ is a strict weak order *)
+Theorem C17_pv_lt_strict_weak : StrictWeak pv_lt.
+Proof. exact pv_lt_strict_weak. Qed.
+Print Assumptions C17_pv_lt_strict_weak.
+
+(* PInv s := PriorityQueue invariant of the wrapped queue, boosting off, and every
+   entry is positional (class 0, no boost) or regular (class 1).  It holds
+   initially and every operation preserves it. *)
+Theorem C17_pos_inv :
+  forall (H : heapimpl pv), plt H = pv_lt -> HeapSpec H ->
+    (forall ds, PInv H (pos_empty 0%Q ds)) /\
+    forall s, PInv H s ->
+      (Inv H (pq_ s) /\ Qeq_bool (factor s) 0 = true) /\
+      (forall o p, PInv H (pos_append_pri H s o p)) /\
+      (forall o s', pos_popleft H s = Some (o, s') -> PInv H s') /\
+      (forall k o, PInv H (pos_insert H s k o)) /\
+      (forall o s', pos_remove H s o = Some s' -> PInv H s') /\
+      (forall key rm o s', pos_find H s key rm = Some (o, s') -> PInv H s') /\
+      (forall key np o s', pos_reschedule H s key np = Some (o, s') -> PInv H s') /\
+      (forall getp, PInv H (pos_reschedule_all H s getp)) /\
+      PInv H (pos_clear s) /\ PInv H (snd (pos_iter H s)).
+Proof.
+  intros H Hplt HS. split; [exact (PInv_empty H)|]. intros s Hp.
+  split; [destruct Hp as (Hi & Hf & _); exact (conj Hi Hf)|].
+  split; [intros; apply append_pri_inv; auto|].
+  split; [intros o s'; apply popleft_inv; auto|].
+  split; [intros; apply insert_inv; auto|].
+  split; [intros o s'; apply remove_inv_pos; auto|].
+  split; [intros key rm o s'; apply find_inv_pos; auto|].
+  split; [intros key np o s'; apply reschedule_inv_pos; auto|].
+  split; [intros; apply reschedule_all_inv; auto|].
+  split; [apply clear_inv_pos; auto | apply iter_inv_pos; auto].
+Qed.
+Print Assumptions C17_pos_inv.
+
+(* popping everything yields a permutation of the content in which the class never
+   decreases: every positional (class 0) entry pops before every regular (class 1)
+   one; within a class the order is by priority(), then sequence (C17_pop_order) *)
+Theorem C17_pos_class_order :
+  forall (H : heapimpl pv), plt H = pv_lt -> HeapSpec H ->
+    forall s, PInv H s ->
+      let out := drain H (length (arr (pq_ s))) (pq_ s) in
+      Permutation out (arr (pq_ s)) /\
+      forall l1 a l2 b l3, out = l1 ++ a :: l2 ++ b :: l3 ->
+        (pclass (epri a) <= pclass (epri b))%Z.
+Proof. exact pos_class_order. Qed.
+Print Assumptions C17_pos_class_order.
+
+(* reschedule_all (repaired: sorts first).  Let l be the pop order before.  The
+   i-th entry of l comes back with its re-computed priority value, sequence
+   number i and the same object.  Objects are neither lost nor duplicated, and
+   for i < j the i-th still pops before the j-th unless the new priority of the
+   j-th is strictly below that of the i-th: in particular equal-priority entries
+   keep their order, and so do positional entries (second part). *)
+Theorem C17_pos_reschedule_all :
+  forall (H : heapimpl pv), plt H = pv_lt -> HeapSpec H ->
+    forall s getp, PInv H s ->
+      let l := stable_sort H (arr (pq_ s)) in
+      let out := stable_sort H (arr (pq_ (pos_reschedule_all H s getp))) in
+      let new i := mkE (fst (repri getp (nth i l (edflt H)))) (Z.of_nat i)
+                       (eobj (nth i l (edflt H))) in
+      Permutation (map (@eobj pv) out) (map (@eobj pv) (arr (pq_ s))) /\
+      (forall i j, i < j -> j < length l ->
+         pv_lt (epri (new j)) (epri (new i)) = false ->
+         exists l1 l2 l3, out = l1 ++ new i :: l2 ++ new j :: l3) /\
+      (forall i j, i < j -> j < length l ->
+         pclass (epri (nth i l (edflt H))) = 0%Z -> pclass (epri (nth j l (edflt H))) = 0%Z ->
+         exists l1 l2 l3, out = l1 ++ new i :: l2 ++ new j :: l3).
+Proof.
+  intros H Hplt HS s getp Hp l out new.
+  destruct (reschedule_all_order H Hplt HS s getp Hp) as [H1 H2].
+  split; [exact H1|]. split; [exact H2|].
+  intros i j Hij Hj Hci Hcj.
+  exact (reschedule_all_positional H Hplt HS s getp i j Hp Hij Hj Hci Hcj).
+Qed.
+Print Assumptions C17_pos_reschedule_all.
+
+(* insert(position, obj): with L the pop order before, the pop order afterwards is
+   the first min(position, len) objects of L, then the new object, then the rest
+   of L - also when the queue runs empty while promoting (position > len) *)
+Theorem C17_pos_insert_position :
+  forall (H : heapimpl pv), plt H = pv_lt -> HeapSpec H ->
+    forall s k o, PInv H s ->
+      let L := stable_sort H (arr (pq_ s)) in
+      map (@eobj pv) (stable_sort H (arr (pq_ (pos_insert H s k o))))
+      = map (@eobj pv) (firstn k L) ++ o :: map (@eobj pv) (skipn k L).
+Proof. exact insert_position. Qed.
+Print Assumptions C17_pos_insert_position.
+
+(* closed instance used by the correspondence check *)
+Theorem C17_pos_inv_HPV :
+  forall s, PInv HPV s -> forall k o getp,
+    PInv HPV (pos_insert HPV s k o) /\ PInv HPV (pos_reschedule_all HPV s getp).
+Proof.
+  intros s Hp k o getp. split.
+  - exact (insert_inv HPV eq_refl (heapq_model_spec pv_lt pv_dflt pv_lt_strict_weak) s k o Hp).
+  - exact (reschedule_all_inv HPV eq_refl (heapq_model_spec pv_lt pv_dflt pv_lt_strict_weak) s getp Hp).
+Qed.
+Print Assumptions C17_pos_inv_HPV.
+
+(* ---- the hypotheses are satisfiable ---- *)
+Example C17_strict_weak_Z : StrictWeak Z.ltb.
+Proof. exact Zltb_strict_weak. Qed.
+
+Example C17_heapspec_satisfiable : HeapSpec (sort_impl Z.ltb 0%Z).
+Proof. exact (sort_impl_spec Z.ltb 0%Z Zltb_strict_weak). Qed.
+
+(* a concrete non-trivial queue (built by the executable heapq model) satisfies Inv *)
+Example C17_inv_example :
+  let q := (pq_add HZ (pq_add HZ (pq_add HZ (pq_add HZ pq_empty 1 10) 0 11) 1 12) (-1) 13)%Z in
+  arr q = [mkE (-1) 3 13; mkE 0 1 11; mkE 1 2 12; mkE 1 0 10]%Z /\ Inv HZ q.
+Proof.
+  split; [vm_compute; reflexivity|].
+  split; [|split; [|split]].
+  - apply (is_heap_nth _ _ (edflt HZ)). vm_compute.
+    intros i Hi. assert (Hc : i = 1 \/ i = 2 \/ i = 3) by lia. destruct Hc as [E|[E|E]]; subst i; reflexivity.
+  - vm_compute. repeat constructor; simpl; intuition discriminate.
+  - vm_compute. repeat constructor.
+  - vm_compute. discriminate.
+Qed.
